@@ -538,6 +538,46 @@ def generate(api):
                 % (n1, res, bound, lit(ma.group(1)), st['r'], fx(msa.group(1), {'a': ('a', 'f32')}, want='int')))
     section('arithmetic', arith)
 
+    # ---------------------------------------------------------------- early returns (identity primitives)
+    def guard(text, names):
+        """`a.approx_zero_ulps(4) && b.approx_eq_ulps(&0.0, 4)` -> Gallina bool over approx_zero4"""
+        def atom(t):
+            t = t.strip()
+            m = re.match(r"^(\w+)\.approx_zero_ulps\(4\)$", t) or re.match(r"^(\w+)\.approx_eq_ulps\(&0\.0,\s*4\)$", t)
+            if not m or m.group(1) not in names:
+                raise Bad("unsupported guard atom %r" % t)
+            return "approx_zero4 %s" % names[m.group(1)]
+        ors = []
+        for o in text.split('||'):
+            ors.append("(" + " && ".join(atom(a) for a in o.split('&&')) + ")")
+        return " || ".join(ors)
+
+    def early():
+        sc = strip_comments(body_of(mod, 'scale_coordinates'))
+        m = re.search(r"Some\(\(\s*([^,]+),\s*([^)]+)\)\)", sc)
+        if not m or not re.search(r"let\s*\(sx,\s*sy\)\s*=\s*ts\.get_scale\(\)", sc):
+            raise Bad("scale_coordinates changed shape")
+        env = {k: (k, 'f32') for k in ('x', 'y', 'sx', 'sy')}
+        off = strip_comments(body_of(mod, 'apply_offset'))
+        mo = re.search(r"let\s*\(dx,\s*dy\)\s*=\s*match\s+scale_coordinates\(fe\.dx\(\),\s*fe\.dy\(\),\s*ts\)\s*\{\s*Some\(v\)\s*=>\s*v,\s*None\s*=>\s*return\s+Ok\(input\),\s*\}\s*;"
+                       r"\s*if\s+([^{}]*?)\s*\{\s*return\s+Ok\(input\);\s*\}", off, re.S)
+        if not mo:
+            raise Bad("apply_offset: early return not found")
+        rs = strip_comments(body_of(mod, 'resolve_std_dev'))
+        mr = re.search(r"let\s*\(mut\s+std_dx,\s*mut\s+std_dy\)\s*=\s*scale_coordinates\(std_dx,\s*std_dy,\s*ts\)\?\s*;"
+                       r"\s*if\s+([^{}]*?)\s*\{\s*return\s+None;\s*\}", rs, re.S)
+        bl = strip_comments(body_of(mod, 'apply_blur'))
+        mb = re.search(r"match\s+resolve_std_dev\(fe\.std_dev_x\(\)\.get\(\),\s*fe\.std_dev_y\(\)\.get\(\),\s*ts\)\s*\{\s*Some\(v\)\s*=>\s*v,\s*None\s*=>\s*return\s+Ok\(input\),", bl, re.S)
+        if not (mr and mb):
+            raise Bad("resolve_std_dev / apply_blur: early return not found")
+        return ("(* filter/mod.rs :: scale_coordinates, apply_offset, resolve_std_dev + apply_blur early returns *)\n"
+                "Definition scale_coordinates (x y sx sy : f32) : f32 * f32 := (%s, %s).\n"
+                "Definition offset_returns_input (dx dy : f32) : bool := %s.\n"
+                "Definition blur_returns_input (std_dx std_dy : f32) : bool := %s.\n"
+                % (fx(m.group(1), env), fx(m.group(2), env), guard(mo.group(1), {'dx': 'dx', 'dy': 'dy'}),
+                   guard(mr.group(1), {'std_dx': 'std_dx', 'std_dy': 'std_dy'})))
+    section('early_returns', early)
+
     # ---------------------------------------------------------------- clip.rs / mask.rs (C15)
     def clip_modes():
         clip = strip_comments(api.rd('crates/resvg/src/clip.rs'))
